@@ -20,7 +20,7 @@ func init() {
 		ID:         "C14",
 		Title:      "slicez set operations, in-place variants and FlexSlice match their definitions",
 		Quick:      30000,
-		Thorough:   2000000,
+		Thorough:   1300000,
 		Gen:        gen,
 		Corpus:     corpus,
 		Impl:       impl,
@@ -477,6 +477,23 @@ func impl(c core.Case) []string {
 					f.Prepend(v...)
 				}
 				return "ok | " + showFlex(compact, &f)
+			case "prependw", "prependc": // f.Prepend(f.Values[a:a+n]...): the argument aliases the receiver
+				if len(t) != 3 {
+					return "bad-op"
+				}
+				a, e1 := strconv.Atoi(t[1])
+				n, e2 := strconv.Atoi(t[2])
+				if e1 != nil || e2 != nil || a < 0 || n < 0 {
+					return "bad-op"
+				}
+				lim := len(f.Values)
+				if t[0] == "prependc" {
+					lim = cap(f.Values) // the window may reach into the spare capacity
+				}
+				a %= lim + 1
+				n = min(n, lim-a)
+				f.Prepend(f.Values[a : a+n]...)
+				return "ok | " + showFlex(compact, &f)
 			case "appendn", "prependn":
 				if len(t) != 3 {
 					return "bad-op"
@@ -700,12 +717,12 @@ func genFlex(r *core.Rand) core.Case {
 	size := 0 // rough length estimate, to aim indices
 	mode := r.Intn(3)
 	for i := 0; i < n; i++ {
-		w := []int{22, 18, 8, 12, 12, 10, 5, 4, 3}
+		w := []int{22, 18, 8, 12, 12, 10, 5, 4, 3, 7}
 		if mode == 1 { // draining phases: cross the shrink threshold
-			w = []int{4, 4, 4, 22, 28, 26, 5, 4, 3}
+			w = []int{4, 4, 4, 22, 28, 26, 5, 4, 3, 3}
 		}
 		if i < 3 && mode != 2 { // start with a burst so capacity passes 8
-			w = []int{50, 50, 0, 0, 0, 0, 0, 0, 0}
+			w = []int{50, 50, 0, 0, 0, 0, 0, 0, 0, 0}
 		}
 		if r.Chance(4) {
 			mode = r.Intn(3)
@@ -758,6 +775,17 @@ func genFlex(r *core.Rand) core.Case {
 			}
 		case 8:
 			emit("len")
+		case 9: // Prepend with an argument that aliases the receiver: prefix, inner window, suffix
+			a, k := 0, r.Range(0, 4)
+			if r.Chance(60) {
+				a = r.Range(0, size+1)
+			}
+			if r.Chance(35) {
+				emit("prependc %d %d", r.Range(0, size+9), k)
+			} else {
+				emit("prependw %d %d", a, k)
+			}
+			size += k // an upper bound (the harness clamps the window into the content)
 		}
 	}
 	return core.Case{Lines: lines, Tag: "flex"}
@@ -1128,6 +1156,9 @@ func corpus() []core.Case {
 		{Tag: "corpus-flex", Lines: []string{"@ C14 flex 0", "append 1 2 3 4 5 6 7 8 9", "pop", "pop", "pop", "pop", "pop", "pop", "len", "pop", "len", "get 1", "get 2", "prepend 7 8 9 10 11 12 13", "remove 1"}},
 		{Tag: "corpus-flex", Lines: []string{"@ C14 flex 12", "append 1 2 3 4", "remove 1", "len", "get 3", "sub 0 -1", "append 5 6 7 8 9 10 11 12 13 14 15 16 17 18 19 20 21 22 23 24 25 26 27 28 29 30 31 32 33 34 35 36 37", "sub 5 7", "subset 33 -1", "len", "get 3", "pop", "pop", "pop", "pop"}},
 		{Tag: "corpus", Lines: []string{"@ C14 calls", "copy -1 4 ; 1 2 3", "copy -2 5 ; 1 2 3", "copy -4 -2 ; 1 2 3", "copy -1 3 ; 1 2 3", "copy -1 2 ; 1 2 3", "copy -3 9 ; 7", "copy 2 9 ; 1 2 3", "copy -1 -1 ; e", "copy -1 1 ; nil"}},
+		// F17: Prepend with an argument aliasing the receiver, with room to spare and without
+		{Tag: "corpus-flex", Lines: []string{"@ C14 flex 8", "append 1 2 3", "prependw 1 2", "len", "get 0", "get 1", "prependw 0 2", "prependw 6 1", "prependw 3 9", "prependc 6 4", "prependc 0 20"}},
+		{Tag: "corpus-flex", Lines: []string{"@ C14 flex 3", "append 1 2 3", "prependw 1 2", "prependw 4 1", "pop", "prependw 2 2"}},
 		{Tag: "corpus-flex", Lines: []string{"@ C14 flex 40", "append 1 2 3 4 5 6 7 8 9 10 11", "pop", "prepend 20", "pop", "pop", "sub 0 3", "subset 2 6", "prepend 1 2 3 4 5 6 7 8 9", "shift"}},
 	}
 }
@@ -1510,6 +1541,11 @@ func clipInts(xs []int) string {
 
 func checkFlex(c core.Case, out []string) *core.Failure {
 	compact := core.Toks(c.Lines[0])[2] == "flexL"
+	var prevMem []int // the whole backing array before the current op (full display only)
+	if !compact {
+		c0, _ := strconv.Atoi(core.Toks(c.Lines[0])[3])
+		prevMem = make([]int, c0)
+	}
 	var spec []int
 	for i := 1; i < len(c.Lines); i++ {
 		t := core.Toks(c.Lines[i])
@@ -1524,6 +1560,15 @@ func checkFlex(c core.Case, out []string) *core.Failure {
 			continue
 		}
 		res, state, _ := strings.Cut(o, " | ")
+		if !compact && i > 1 {
+			if _, st, ok := strings.Cut(out[i-1], " | "); ok {
+				if p := splitOut(st); len(p) == 3 {
+					if m, _, ok := parseShown(p[2]); ok {
+						prevMem = m
+					}
+				}
+			}
+		}
 		var want string
 		// sameContent: does the printed state hold exactly the sequence w?
 		var content func(st string) ([]int, bool)
@@ -1563,6 +1608,26 @@ func checkFlex(c core.Case, out []string) *core.Failure {
 			v, _ := parseInts(t[1:])
 			spec = append(append([]int(nil), v...), spec...)
 			want = "ok"
+		case "prependw", "prependc":
+			a, _ := strconv.Atoi(t[1])
+			n, _ := strconv.Atoi(t[2])
+			arr := spec // the cells the window is taken from
+			if t[0] == "prependc" {
+				if prevMem == nil {
+					return nil // compact display: the spare cells are not shown, nothing further to judge
+				}
+				arr = prevMem
+			}
+			a %= len(arr) + 1
+			n = min(n, len(arr)-a)
+			win := append([]int(nil), arr[a:a+n]...)
+			// sequence semantics for EVERY window, reallocating or not (F17, c14_flex_prepend_alias):
+			// the prepended cells are the window as it was before the call
+			spec = append(win, spec...)
+			if res != "ok" || !sameContent(state, spec) {
+				return fail("flex-prepend-alias", "ok with content "+clipInts(spec)+" (Prepend of a window of the receiver's own array = that window followed by the old content, regardless of spare capacity)")
+			}
+			continue
 		case "appendn", "prependn":
 			k, _ := strconv.Atoi(t[1])
 			v0, _ := strconv.Atoi(t[2])
@@ -1748,6 +1813,7 @@ func classify(c core.Case, out []string) []string {
 	}
 	if hdr[2] == "flex" || hdr[2] == "flexL" {
 		prevCap := -1
+		prevLen := 0
 		for i, l := range c.Lines[1:] {
 			t := core.Toks(l)
 			o := out[i+1]
@@ -1761,6 +1827,27 @@ func classify(c core.Case, out []string) []string {
 			p := strings.Fields(st)
 			cp, _ := strconv.Atoi(p[1])
 			ln, _ := strconv.Atoi(p[0])
+			if (t[0] == "prependw" || t[0] == "prependc") && len(t) == 3 && prevCap >= 0 {
+				a, _ := strconv.Atoi(t[1])
+				if t[0] == "prependc" {
+					a %= prevCap + 1
+					if k := ln - prevLen; k > 0 && a+k > prevLen {
+						ls = append(ls, "flex prepend aliasing the receiver: window reaches into the spare capacity")
+					}
+				} else {
+					a %= prevLen + 1
+				}
+				switch k := ln - prevLen; {
+				case k == 0:
+					ls = append(ls, "flex prepend aliasing the receiver: empty window")
+				case ln > prevCap:
+					ls = append(ls, "flex prepend aliasing the receiver: reallocates (sequence semantics)")
+				case a == 0:
+					ls = append(ls, "flex prepend aliasing the receiver: in capacity, prefix window (sequence semantics)")
+				default:
+					ls = append(ls, "flex prepend aliasing the receiver: in capacity, inner window (copied before the shift)")
+				}
+			}
 			if prevCap >= 0 && cp != prevCap && cp >= 9 && cp <= 15 {
 				ls = append(ls, "flex capacity becomes 9..15")
 			}
@@ -1797,6 +1884,7 @@ func classify(c core.Case, out []string) []string {
 				ls = append(ls, "flex just above cap/4")
 			}
 			prevCap = cp
+			prevLen = ln
 		}
 		return ls
 	}
